@@ -307,3 +307,120 @@ class Bindings:
 
     def listen_calls(self, fn):
         return [c for c in fn["calls"] if c.get("k") == "call" and c["f"].get("n") == "listen"]
+
+
+# ----------------------------------------------------------------------------- Output.tla records
+
+TYPE_KINDS = {"kw", "ref", "arr", "union", "inter", "tuple", "lit", "numlit", "boollit", "obj", "fn", "typeof",
+              "op", "indexed", "member", "index", "param"}
+
+
+def _refs(node, trefs, vrefs, lrefs, locals_, lazy=False):
+    """collect type references, eager value references and lazy value references of an AST"""
+    if isinstance(node, list):
+        for x in node:
+            _refs(x, trefs, vrefs, lrefs, locals_, lazy)
+        return
+    if not isinstance(node, dict):
+        return
+    k = node.get("k")
+    tgt = lrefs if lazy else vrefs
+    if k == "ref":
+        trefs.append([node.get("q", ""), node["n"]])
+        _refs(node.get("args", []), trefs, vrefs, lrefs, locals_, lazy)
+        return
+    if k == "typeof":
+        tgt.append([node.get("q", ""), node["n"]])
+        return
+    if k == "id":
+        if node["n"] not in locals_ and node["n"] not in ("undefined", "null", "this"):
+            tgt.append(["", node["n"]])
+        return
+    if k == "member" and "o" in node and "p" in node and isinstance(node["o"], dict):
+        o = node["o"]
+        if o.get("k") == "id":
+            if o["n"] not in locals_:
+                tgt.append([o["n"], node["p"]])
+            return
+        _refs(o, trefs, vrefs, lrefs, locals_, lazy)
+        return
+    if k == "arrow":
+        inner_locals = set(locals_) | set(node.get("ps", []))
+        body = node.get("body", {})
+        if body.get("k") == "block":
+            _refs(body.get("calls", []), trefs, vrefs, lrefs, inner_locals, True)
+        else:
+            _refs(body, trefs, vrefs, lrefs, inner_locals, True)
+        return
+    if k == "fn":      # function TYPE: parameter names are not references
+        for p in node.get("ps", []):
+            _refs(p.get("t"), trefs, vrefs, lrefs, locals_, lazy)
+        _refs(node.get("r"), trefs, vrefs, lrefs, locals_, lazy)
+        return
+    if k in ("prop", "member") and "key" in node:      # object literal property / object type member
+        _refs(node.get("v"), trefs, vrefs, lrefs, locals_, lazy)
+        _refs(node.get("t"), trefs, vrefs, lrefs, locals_, lazy)
+        return
+    for kk, v in node.items():
+        if kk in ("k", "n", "q", "p", "key", "kcs", "cs", "raw", "v") and not isinstance(v, (dict, list)):
+            continue
+        if kk in ("kcs", "cs", "ps") and k != "objlit" and kk != "ps":
+            continue
+        if isinstance(v, (dict, list)):
+            _refs(v, trefs, vrefs, lrefs, locals_, lazy)
+
+
+def _uniq(pairs):
+    seen = set()
+    out = []
+    for q, n in pairs:
+        if (q, n) not in seen:
+            seen.add((q, n))
+            out.append({"q": q, "n": n})
+    return out
+
+
+def module_record(mod, fname):
+    """parsed Module -> record of spec/Output.tla"""
+    imports = []
+    decls = []
+    reexports = []
+    for it in mod.items:
+        k = it["k"]
+        if k == "import":
+            frm = it["from"]
+            frm = frm[2:] if frm.startswith("./") else frm
+            names = list(it["names"]) + ([it["default"]] if it.get("default") else [])
+            imports.append({"ns": it.get("ns", ""), "names": names, "from": frm})
+        elif k == "exportstar":
+            frm = it["from"]
+            reexports.append(frm[2:] if frm.startswith("./") else frm)
+        elif k in ("interface", "alias", "const", "function"):
+            trefs, vrefs, lrefs, brefs = [], [], [], []
+            locals_ = set()
+            if k == "interface":
+                _refs(it["ext"], trefs, vrefs, lrefs, locals_)
+                _refs(it["body"], trefs, vrefs, lrefs, locals_)
+            elif k == "alias":
+                _refs(it["t"], trefs, vrefs, lrefs, locals_)
+            elif k == "const":
+                _refs(it.get("ann"), trefs, vrefs, lrefs, locals_)
+                _refs(it["init"], trefs, vrefs, lrefs, locals_)
+            else:
+                locals_ = {p["n"] for p in it["ps"]} | set(it.get("bodylocals", []))
+                for p in it["ps"]:
+                    _refs(p["t"], trefs, vrefs, lrefs, locals_)
+                _refs(it["r"], trefs, vrefs, lrefs, locals_)
+                # the body runs when the function is called: lazy references
+                _refs(it["calls"], trefs, vrefs, lrefs, locals_, True)
+                for a, b in it.get("bodyrefs", []):
+                    if a not in locals_:
+                        brefs.append([a, b])
+            decls.append({"name": it["n"], "kind": k, "exported": bool(it.get("exported")),
+                          "space": "type" if k in ("interface", "alias") else "value",
+                          "trefs": _uniq(trefs), "vrefs": _uniq(vrefs), "lrefs": _uniq(lrefs), "brefs": _uniq(brefs),
+                          "tparams": list(it.get("tps", [])), "locals": sorted(locals_)})
+        elif k == "unparsable":
+            decls.append({"name": it.get("n") or "?", "kind": "unparsable", "exported": True, "space": "value",
+                          "trefs": [], "vrefs": [], "lrefs": [], "brefs": [], "tparams": [], "locals": []})
+    return {"file": fname, "imports": imports, "decls": decls, "reexports": reexports}
